@@ -710,6 +710,49 @@ def lists_nones_and_wildcards(ctx):
         ctx.fail("client accepted or mis-reported a call the rule rejects", meta, got, want)
 
 
+def named_wrapper_types(ctx):
+    """The wrapper element may name its type (type="x:FT") instead of holding it: the parameters, what is rejected and
+    the reported counts are those of the same content model written inside the element - a choice, an all group or a
+    sequence at the top."""
+    inner = {"choice": '<xsd:choice><xsd:element name="p1" type="xsd:string"/><xsd:element name="p2" type="xsd:string"/></xsd:choice>',
+             "choice-of-sequences": '<xsd:choice><xsd:sequence><xsd:element name="p1" type="xsd:string"/><xsd:element name="p2" '
+                                    'type="xsd:string"/></xsd:sequence><xsd:element name="p3" type="xsd:string"/></xsd:choice>',
+             "sequence-with-choice": '<xsd:sequence><xsd:element name="p1" type="xsd:string"/><xsd:choice><xsd:element name="p2" '
+                                     'type="xsd:string"/><xsd:element name="p3" type="xsd:string" minOccurs="0"/></xsd:choice></xsd:sequence>',
+             "all": '<xsd:all><xsd:element name="p1" type="xsd:string"/><xsd:element name="p2" type="xsd:string" minOccurs="0"/></xsd:all>'}
+    calls = [((), {}), (("a",), {}), (("a", "b"), {}), (("a", "b", "c"), {}), (("a", "b", "c", "d"), {}), ((), {"p1": "a", "p2": "b"}),
+             ((), {"p2": "b"}), ((), {"p3": "c"}), (("a",), {"p3": "c"}), ((), {"p1": "a", "p3": "c"}), ((), {"zz": 1})]
+
+    def outcomes(c):
+        out = []
+        for a, k in calls:
+            try:
+                env = wsdlkit.envelope_bytes(c.service.f(*a, **k))
+                fn = xmlread.find1(xmlread.find1(xmlread.parse(env), "Body"), "f")
+                out.append(["sent", [[x["name"][1], x.get("text")] for x in fn["children"]]])
+            except TypeError as e:
+                out.append(["TypeError", str(e)])
+            except Exception as e:
+                out.append([type(e).__name__, str(e)[:80]])
+        return out
+    for label, model in inner.items():
+        anon = '<xsd:element name="f"><xsd:complexType>%s</xsd:complexType></xsd:element>' % model
+        named = '<xsd:complexType name="FT">%s</xsd:complexType><xsd:element name="f" type="x:FT"/>' % model
+        named_after = '<xsd:element name="f" type="x:FT"/><xsd:complexType name="FT">%s</xsd:complexType>' % model
+        ref = outcomes(wsdlkit.client(wsdlkit.wsdl_doc(anon, "f", None), nosend=True))
+        for rname, sc in (("named", named), ("named-declared-after", named_after)):
+            meta = {"stream": "named-wrapper-types", "content": label, "rendering": rname}
+            ctx.case(common.canon(meta), True)
+            try:
+                got = outcomes(wsdlkit.client(wsdlkit.wsdl_doc(sc, "f", None), nosend=True))
+            except Exception as e:
+                got = "%s: %s" % (type(e).__name__, e)
+            if got != ref:
+                bad = [i for i in range(len(calls)) if not isinstance(got, list) or got[i] != ref[i]]
+                ctx.fail("client accepted or mis-reported a call the rule rejects", dict(meta, calls=[repr(calls[i]) for i in bad[:3]]),
+                         got if not isinstance(got, list) else [got[i] for i in bad[:3]], [ref[i] for i in bad[:3]])
+
+
 def rpc_and_ports(ctx):
     """(C) the two binding-level sites around the parser: rpc operations bind positional and keyword values alike
     (None included), and same-named operations of two ports are each bound against their own parameters."""
@@ -796,6 +839,7 @@ def run(ctx):
     rpc_and_ports(ctx)
     wrapper_namespace_without_prefix(ctx)
     lists_nones_and_wildcards(ctx)
+    named_wrapper_types(ctx)
     empty_wrappers(ctx)
     repeating_and_foreign_typed_wrappers(ctx)
 
